@@ -171,9 +171,13 @@ func gen(g *vh.Gen) {
 	for _, c := range [][3]int{{40, 0, 0}, {40, 0, 7}, {40, 0, 39}, {40, 40, 5}, {40, 3, 10}, {25, 12, 4}, {10, 0, 10}} {
 		g.Emit("scan", fmt.Sprint(c[0]), fmt.Sprint(c[1]), fmt.Sprint(c[2]))
 	}
+	// the same over the FILE store (three nested directory levels): many mailboxes of expired mail in many hash directories
+	for _, c := range [][3]int{{60, 60, 3}, {60, 60, 20}, {60, 0, 5}, {40, 25, 0}} {
+		g.Emit("scan", fmt.Sprint(c[0]), fmt.Sprint(c[1]), fmt.Sprint(c[2]), "file")
+	}
 	for i := 0; i < g.N(3, 200); i++ {
 		n := 5 + g.Intn(60)
-		g.Emit("scan", fmt.Sprint(n), fmt.Sprint(g.Intn(n+1)), fmt.Sprint(g.Intn(n+2)))
+		g.Emit("scan", fmt.Sprint(n), fmt.Sprint(g.Intn(n+1)), fmt.Sprint(g.Intn(n+2)), g.Pick("mem", "file"))
 	}
 	g.Emit("ret", "1h", "30", "pre")
 	g.Emit("ret", "1h", "30", "mid")
